@@ -53,15 +53,31 @@ def main():
                 return
             text = common.render_case(case)
             base_seed = (wseed * 31 + int(common.case_hash(text), 16)) & 0x7FFFFFFFFFFF
-            res = common.run_runner(part.get("binary", spec.binary), text, workdir, ["--base-seed", base_seed, "--nsched", nsched] + extra)
+            # a case may cap its own number of schedules and add runner arguments (very large programs)
+            ns = min(nsched, case["max_sched"]) if "max_sched" in case else nsched
+            cextra = extra + list(case.get("args", []))
+            res = common.run_runner(part.get("binary", spec.binary), text, workdir, ["--base-seed", base_seed, "--nsched", ns] + cextra)
             stats.add(text, res, classes=case.get("classes", ()))
             v = res.get("violation")
+            tol = res.get("tolerated_freed_reads") or {}
+            unknown_site = False
+            for site in tol.get("sites", []):
+                k = common.match_known(known, case, site)
+                if k is not None:
+                    stats.known_hits[k["id"]] = stats.known_hits.get(k["id"], 0) + max(1, tol.get("count", 1) // max(1, len(tol["sites"])))
+                else:
+                    unknown_site = True
+            if unknown_site and not v:
+                # a read that was let through is not covered by the known-findings file: get the real verdict
+                res = common.run_runner(part.get("binary", spec.binary), text, workdir, ["--base-seed", base_seed, "--nsched", ns, "--no-tolerate"] + cextra)
+                v = res.get("violation")
+                cextra = cextra + ["--no-tolerate"]
             if v:
                 k = common.match_known(known, case, v)
                 if k is not None:
                     stats.known_hits[k["id"]] = stats.known_hits.get(k["id"], 0) + 1
                     return
-                state["last_fail"] = {"case": case, "text": text, "base_seed": base_seed, "nsched": nsched, "violation": v, "part": pname, "args": extra,
+                state["last_fail"] = {"case": case, "text": text, "base_seed": base_seed, "nsched": ns, "violation": v, "part": pname, "args": cextra,
                                       "binary": part.get("binary", spec.binary)}
                 state["failing_calls"] += 1
                 raise Violation(v["kind"])
